@@ -11,9 +11,9 @@ ORACLES = "grading libraries, LXR hash, fat103/ed25519/secp256k1 signature check
 
 CHECKS = {
     "C01": {
-        "scenarios": [{"name": "replaymp"}, {"name": "general", "tier": "thorough"}],
-        "accept": ["replay:"],
-        "technique": "Lean: model is a function of the chain; regenerated list of every map range / sort / clock read in the sync path; order-independence lemmas for the payout set; kernel-checked witness that untied staking order mattered (repaired). Tie: N independent OS processes replay one tie-laden chain, dumps compared; reference run in lock-step with the model",
+        "scenarios": [{"name": "replaymp"}, {"name": "payouts"}, {"name": "general", "tier": "thorough"}],
+        "accept": ["replay:", "payouts:nondeterministic"],
+        "technique": "Lean: model is a function of the chain; regenerated list of every map range / sort / clock read in the sync path; order-independence lemmas for the payout set; kernel-checked witness that untied staking order mattered (repaired). Tie: N independent OS processes replay one tie-laden chain (top stakes tied, total above the cap), dumps compared; ConversionSupplySet.Payouts evaluated repeatedly on one request set; reference run in lock-step with the model",
         "assumptions": [ORACLES, "multiFetch's worker interleaving is not modelled (entries are stored by index)"],
         "design_ref": "DESIGN.md §7 C01",
     },
@@ -109,9 +109,9 @@ CHECKS = {
         "design_ref": "DESIGN.md §7 C14",
     },
     "C15": {
-        "scenarios": [{"name": "ledger"}],
+        "scenarios": [{"name": "ledger"}, {"name": "aligned"}],
         "accept": ["issuance:", "history-replay:old-burn", "history-replay:burn", "history-replay:mint"],
-        "technique": "Lean: regenerated developer table sums to 100 % / 2000 PEG (x144), mint table shape, activation order; payouts, mint and zeroings are identity off their heights; kernel-checked witness that the old-burn zeroing stops at the first non-zero asset. Tie: lock-step chain crossing every activation with funds on the special addresses; schedule monitor",
+        "technique": "Lean: regenerated developer table sums to 100 % / 2000 PEG (x144), mint table shape, activation order; payouts, mint and zeroings are identity off their heights; kernel-checked witness that the old-burn zeroing stops at the first non-zero asset. Tie: lock-step chain crossing every activation with funds on the special addresses; chains whose developer-reward / 2.0.2 activation is a multiple of 144 (aligned with the payout cadence); schedule monitor",
         "assumptions": [ORACLES],
         "design_ref": "DESIGN.md §7 C15",
     },
